@@ -580,4 +580,95 @@ theorem TxRunning.irq {n0 F c s h g} (hnr : c.NoReact) (hr : TxRunning n0 F c s 
       · right; right
         exact ⟨List.append_cancel_left (cancel [] (by rw [e]; simp)), hcb, by rw [hh', hreset]⟩
 
+/-- the operations of a transmission history: the modulator takes a byte or reports PacketSent
+    between two operations of the host, or the host runs the handler (with such events before any
+    of its transfers, and any failing transfers) -/
+def TxHistOp : Op → Prop
+  | .env e => e = .txShift ∨ e = .txSent
+  | .api a sched _ => a = .irq ∧ ∀ e ∈ sched, e.2 = .txShift ∨ e.2 = .txSent
+
+/-- what the application sees of a whole transmission history: nothing, until one invocation shows
+    exactly the transmit callback (the model's undefined-behaviour outcome, which C08 excludes
+    for everything but loop fuel, ends the statement) -/
+def TxSeen : List Obs → Prop
+  | [] => True
+  | o :: rest => (∃ u, o = .ub u) ∨ (o.cbEvents = [] ∧ TxSeen rest) ∨ o.cbEvents = [.tx]
+
+theorem TxRunning.irq' {n0 F c s h g} (hnr : c.NoReact) (hr : TxRunning n0 F c s h g) (hcb : h.txCb = true)
+    (sched : List (Nat × Env)) (faults : List (Nat × Code)) (hsched : ∀ e ∈ sched, e.2 = .txShift ∨ e.2 = .txSent) :
+    match s.step c (.api .irq sched faults) with
+    | (s', .ret _ cbs _) =>
+        (∃ h' g', TxRunning n0 F c s' h' g' ∧ h'.txCb = true ∧ cbs.map (·.ev) = []) ∨ cbs.map (·.ev) = [.tx]
+    | (_, .ub _) => True
+    | (_, _) => False := by
+  have := C04_step_on_chip_obs n0 F c hnr s h g hr sched faults hsched
+  generalize hst : s.step c (.api .irq sched faults) = st at this
+  obtain ⟨s', o⟩ := st
+  cases o with
+  | ub u => trivial
+  | skipped => exact this
+  | env => exact this
+  | ret r cbs bus =>
+    obtain ⟨h', g', hh', hpost, hcbs, hch⟩ := this
+    obtain ⟨hpois, hcons, hcase⟩ := hpost
+    have cancel : ∀ l : List CbEvent, g'.cbs = g.cbs ++ l → g.cbs ++ cbs.map (·.ev) = g.cbs ++ l := fun l e => by rw [← hcbs, e]
+    rcases hcase with ⟨hend, e, hst', hmono, hhand, hcb', hop, hmo⟩ | ⟨_, _, hfin⟩
+    · obtain ⟨k, hk, hcache⟩ := hch hend
+      left
+      refine ⟨h', g'.shift k, ⟨hh', hst', by rw [hmo]; exact hr.modem, hop.trans hr.mode, ?_, TxG.shift_conserved hcons k, ?_, hk, hcache⟩, hcb'.trans hcb, ?_⟩
+      · exact (TxG.later_shift g' k).live ⟨hpois, hend⟩
+      · exact (TxG.later_shift g' k).handed.trans hhand
+      · exact List.append_cancel_left (cancel [] (by rw [e]; simp))
+    · rcases hfin with ⟨_, _, e⟩ | ⟨hno, _⟩
+      · right; exact List.append_cancel_left (cancel _ e)
+      · rw [hcb] at hno; cases hno
+
+/-- **C04 on the chip model, whole histories.** From a running transmission with a transmit
+    callback registered, for every history of modulator events and handler invocations (either
+    build, events and failing transfers also inside the invocations, no application reaction): the
+    application sees nothing until one invocation shows exactly one transmit callback. -/
+theorem C04_history_on_chip (n0 : Nat) (F : List UInt8) (c : SysCfg) (hnr : c.NoReact) (ops : List Op)
+    (hops : ∀ op ∈ ops, TxHistOp op) (s : Sys) (h : Handle) (g : TxG) (hr : TxRunning n0 F c s h g) (hcb : h.txCb = true) :
+    TxSeen (Sys.run c s ops).2 := by
+  induction ops generalizing s h g with
+  | nil => trivial
+  | cons op rest ih =>
+    have hop := hops op List.mem_cons_self
+    have hrest : ∀ o ∈ rest, TxHistOp o := fun o ho => hops o (List.mem_cons_of_mem _ ho)
+    simp only [Sys.run]
+    cases op with
+    | env e =>
+      obtain ⟨k, hr', ho⟩ := hr.event (c := c) e hop
+      right; left
+      refine ⟨by rw [ho]; rfl, ih hrest _ h _ hr' hcb⟩
+    | api a sched faults =>
+      obtain ⟨ha, hsched⟩ := hop
+      subst ha
+      have := hr.irq' hnr hcb sched faults hsched
+      generalize hst : s.step c (.api .irq sched faults) = st at this
+      obtain ⟨s', o⟩ := st
+      cases o with
+      | ub u => left; exact ⟨u, rfl⟩
+      | skipped => exact absurd this id
+      | env => exact absurd this id
+      | ret r cbs bus =>
+        rcases this with ⟨h', g', hr', hcb', e⟩ | e
+        · right; left; exact ⟨e, ih hrest s' h' g' hr' hcb'⟩
+        · right; right; exact e
+
+/-- non-vacuity of `TxSeen`: a history that shows the callback twice, or something else first, is
+    not accepted -/
+example : ¬TxSeen [.ret (.ok .none) [] [], .ret (.ok .none) [{ ev := .rx [] 0 }] []] ∧
+    TxSeen [.env, .ret (.ok .none) [] [], .ret (.ok .none) [{ ev := .tx }] []] := by
+  constructor
+  · intro h
+    rcases h with ⟨u, e⟩ | ⟨_, h2⟩ | e
+    · cases e
+    · rcases h2 with ⟨u, e⟩ | ⟨e, _⟩ | e
+      · cases e
+      · cases e
+      · cases e
+    · cases e
+  · exact Or.inr (Or.inl ⟨rfl, Or.inr (Or.inl ⟨rfl, Or.inr (Or.inr rfl)⟩)⟩)
+
 end Sx
